@@ -6,9 +6,14 @@
    end-of-stream packet delivers EXACTLY the samples up to the position the
    last granule position names - none missing, none beyond - and leaves the
    reported position at the link's end (Sync_lemmas.v: link_read_to_end).
-   That the read then crosses into the next link and delivers it from its
-   first sample is established per run (tie + oracle), see DESIGN.md. *)
-From VV Require Import Blocking VFile VFile_lemmas VFileDemo Sync_lemmas Seek_lemmas.
+   And the read then CROSSES into the next link: the fetch that meets the next
+   link's first page dumps the decoder, enters that link, skips its header
+   packets and leaves the handle in sync at position 0 of the new link, the
+   reported position being the start of that link (Cross_lemmas.v).  Together:
+   start of a link -> in sync at 0 -> intact packets -> end-of-stream packet ->
+   next link in sync at 0 -> ...  Per run the whole chain is compared with an
+   independent decode of every link (tie + oracle), see DESIGN.md. *)
+From VV Require Import Blocking VFile VFile_lemmas Term_lemmas Read_lemmas VFileDemo Sync_lemmas Seek_lemmas Cross_lemmas.
 From Coq Require Import ZArith List Lia.
 Import ListNotations.
 Local Open Scope Z_scope.
@@ -88,3 +93,59 @@ Print Assumptions C09_read_from_start_is_in_sync.
 
 Example C09_start_hyps_nonvacuous : start_hyps demo2 = true /\ start_hyps demo = true.
 Proof. split; vm_compute; reflexivity. Qed.
+
+(* linear reading across a link boundary *)
+Theorem C09_read_crosses_into_next_link :
+  forall (tail : list page) s pgb (r1 : list page) j hdrs p r w,
+    let l := nth_link s j in
+    v_hs s = 0 -> v_rs s = INITSET -> v_q s = [] -> v_rem s = pgb :: r1 ++ tail ->
+    pg_bos pgb = true -> pg_cont pgb = false -> pg_serial pgb <> v_serial s ->
+    find_link (v_links s) (pg_serial pgb) 0 = Some j -> 0 <= j ->
+    Forall (plain (pg_serial pgb)) r1 ->
+    pg_pkts pgb ++ flat_map pg_pkts r1 = hdrs ++ p :: r -> Forall is_hdr hdrs -> pk_W p = Some w ->
+    0 < li_bs0 l -> 0 < li_bs1 l -> li_bs0 l <= li_bs1 l -> li_bs0 l mod 4 = 0 -> li_bs1 l mod 4 = 0 -> 0 <= li_init l ->
+    IntactS l true 0 false (p :: r) -> v_pcm s = base_of s j ->
+    exists s0,
+      fetch (fetch_fuel s) s = (1, feed s0 p w) /\ SyncInv (feed s0 p w) 0 /\ v_link (feed s0 p w) = j /\
+      v_pcm (feed s0 p w) = base_of s j /\ dec_pcmout (v_dec (feed s0 p w)) = 0 /\
+      stream tail (feed s0 p w) = r /\ PlainRem tail (feed s0 p w) /\ IntactS l false 0 w r.
+Proof. exact fetch_crosses_link. Qed.
+Print Assumptions C09_read_crosses_into_next_link.
+
+(* non-vacuity: the two-link demo after its first link has been read completely (700 samples in 8 reads) *)
+Definition demo4_end : vfs := match reads demo4 (repeat 100000 8) with Some (_, x) => x | None => demo4 end.
+Example C09_demo4_crossing :
+  let a w g e := {| pk_W := Some w; pk_gran := g; pk_eos := e |} in
+  (match reads demo4 (repeat 100000 8) with Some (t, _) => t | None => -1 end) = 700 /\
+  exists s0, fetch (fetch_fuel demo4_end) demo4_end = (1, feed s0 (a false (-1) false) false) /\
+             SyncInv (feed s0 (a false (-1) false) false) 0 /\ v_link (feed s0 (a false (-1) false) false) = 1 /\
+             v_pcm (feed s0 (a false (-1) false) false) = 700.
+Proof.
+  cbv zeta. split; [vm_compute; reflexivity|].
+  destruct (fetch_crosses_link [demo4_nth 11] demo4_end (demo4_nth 8) [demo4_nth 9; demo4_nth 10] 1
+              [{| pk_W := None; pk_gran := 0; pk_eos := false |}; {| pk_W := None; pk_gran := -1; pk_eos := false |}; {| pk_W := None; pk_gran := 0; pk_eos := false |}]
+              {| pk_W := Some false; pk_gran := -1; pk_eos := false |} [{| pk_W := Some false; pk_gran := 128; pk_eos := false |}] false)
+    as (s0 & A & B & C & D & _).
+  - vm_compute. reflexivity.
+  - vm_compute. reflexivity.
+  - vm_compute. reflexivity.
+  - vm_compute. reflexivity.
+  - reflexivity.
+  - reflexivity.
+  - vm_compute. intros H; discriminate H.
+  - vm_compute. reflexivity.
+  - lia.
+  - repeat constructor.
+  - reflexivity.
+  - repeat constructor.
+  - reflexivity.
+  - vm_compute. reflexivity.
+  - vm_compute. reflexivity.
+  - vm_compute. discriminate.
+  - vm_compute. reflexivity.
+  - vm_compute. reflexivity.
+  - vm_compute. discriminate.
+  - apply intactSb_ok. vm_compute. reflexivity.
+  - vm_compute. reflexivity.
+  - exists s0. split; [exact A|]. split; [exact B|]. split; [exact C|]. rewrite D. vm_compute. reflexivity.
+Qed.
